@@ -222,13 +222,22 @@ def _interesting_model(eng, rnd):
     eng.solver.push()
     try:
         eng.solver.set('timeout', 5000)
-        for c in cons:
+        # keep as many nudges as stay satisfiable, in few solver calls: all at once, else by halving (at most ~48 checks)
+        budget = [48]
+
+        def keep(cs):
+            if not cs or budget[0] <= 0:
+                return
+            budget[0] -= 1
             eng.solver.push()
-            eng.solver.add(c)
-            if eng.solver.check() != z3.sat:
-                eng.solver.pop()
-                eng.solver.push()
-        # flatten: re-check under everything kept
+            eng.solver.add(*cs)
+            if eng.solver.check() == z3.sat:
+                return                       # kept (scope stays open; everything is popped in the finally clause)
+            eng.solver.pop()
+            if len(cs) > 1:
+                keep(cs[:len(cs) // 2])
+                keep(cs[len(cs) // 2:])
+        keep(cons)
         if eng.solver.check() == z3.sat:
             return eng.solver.model()
     finally:
